@@ -45,30 +45,45 @@ fn raw_ok(v: &str) -> bool {
     !v.contains('%') && !v.contains('/') && !v.bytes().any(|b| b < 0x20)
 }
 
-fn pv_string(v: &Value, pool: &[String]) -> String {
+/// 2024-01-01 + v days (v <= 120), written out by hand
+pub fn date_string(v: i64) -> String {
+    let mut d = v + 1;
+    for (m, len) in [(1, 31), (2, 29), (3, 31), (4, 30), (5, 31)] {
+        if d <= len { return format!("2024-{m:02}-{d:02}"); }
+        d -= len;
+    }
+    panic!("date out of range")
+}
+const EPOCH_2024: i32 = 19723;
+
+/// text of a partition value; `date` = the value is a day offset of a Date32 column
+fn pv_text(v: &Value, pool: &[String], date: bool) -> String {
     match spec_val(v, pool) {
         Value::String(s) => s,
-        Value::Number(n) => n.to_string(),
+        Value::Number(n) => if date { date_string(n.as_i64().unwrap()) } else { n.to_string() },
         o => o.to_string(),
     }
 }
+fn is_date(case: &Value, j: usize) -> bool { j == 1 && case["c2type"].as_str() == Some("date") }
 
 fn col_name(i: usize, np: usize) -> String {
     if i <= np { format!("c{i}") } else if i == np + 1 { "d".into() } else { "e".into() }
 }
 
 /// Expr.tla AST -> typed logical Expr (column 2 is Int32, strings Utf8, d/e Int64)
-fn to_expr(x: &Value, np: usize, pool: &[String], col_of_lit: usize) -> Expr {
+fn to_expr(x: &Value, np: usize, pool: &[String], col_of_lit: usize, c2: &str) -> Expr {
     match x["op"].as_str().unwrap() {
         "col" => col(col_name(x["i"].as_u64().unwrap() as usize, np)),
         "lit" => match spec_val(&x["v"], pool) {
             Value::String(s) => lit(s),
-            Value::Number(n) => if col_of_lit == 2 && np >= 2 { lit(n.as_i64().unwrap() as i32) } else { lit(n.as_i64().unwrap()) },
+            Value::Number(n) => if col_of_lit == 2 && np >= 2 {
+                match c2 { "date" => lit(ScalarValue::Date32(Some(EPOCH_2024 + n.as_i64().unwrap() as i32))), "i64" => lit(n.as_i64().unwrap()), _ => lit(n.as_i64().unwrap() as i32) }
+            } else { lit(n.as_i64().unwrap()) },
             _ => Expr::Literal(ScalarValue::Null, None),
         },
         "bin" => {
             let c = lit_col(x);
-            let (l, r) = (to_expr(&x["l"], np, pool, c), to_expr(&x["r"], np, pool, c));
+            let (l, r) = (to_expr(&x["l"], np, pool, c, c2), to_expr(&x["r"], np, pool, c, c2));
             match x["f"].as_str().unwrap() {
                 "=" => l.eq(r), "<>" => l.not_eq(r), "<" => l.lt(r), "<=" => l.lt_eq(r), ">" => l.gt(r), ">=" => l.gt_eq(r),
                 "and" => l.and(r), "or" => l.or(r),
@@ -76,13 +91,13 @@ fn to_expr(x: &Value, np: usize, pool: &[String], col_of_lit: usize) -> Expr {
             }
         }
         "un" => {
-            let e = to_expr(&x["e"], np, pool, 0);
+            let e = to_expr(&x["e"], np, pool, 0, c2);
             match x["f"].as_str().unwrap() { "not" => !e, "isnull" => e.is_null(), "isnotnull" => e.is_not_null(), f => panic!("un {f}") }
         }
         "in" => {
             let c = x["e"]["i"].as_u64().unwrap() as usize;
-            let list = x["list"].as_array().unwrap().iter().map(|l| to_expr(l, np, pool, c)).collect();
-            to_expr(&x["e"], np, pool, 0).in_list(list, x["neg"].as_bool().unwrap())
+            let list = x["list"].as_array().unwrap().iter().map(|l| to_expr(l, np, pool, c, c2)).collect();
+            to_expr(&x["e"], np, pool, 0, c2).in_list(list, x["neg"].as_bool().unwrap())
         }
         o => panic!("node {o}"),
     }
@@ -104,49 +119,79 @@ async fn build(case: &Value, pool: &[String]) -> Result<Built, String> {
     let raw = case["spelling"].as_str() == Some("raw");
     let dict = case["dict"].as_bool().unwrap_or(false);
     let tp = case["tp"].as_u64().unwrap_or(2) as usize;
+    let mode = case["mode"].as_str().unwrap_or("api");
+    let c2 = case["c2type"].as_str().unwrap_or("i32");
+    let ignsub = case["ignsub"].as_bool().unwrap_or(true);
     let mem: Arc<dyn ObjectStore> = Arc::new(InMemory::new());
     let mut paths = vec![];
     for (i, f) in case["files"].as_array().unwrap().iter().enumerate() {
         if !f["present"].as_bool().unwrap() { paths.push(None); continue; }
+        let decoy = f["decoy"].as_u64().unwrap();
+        // CREATE EXTERNAL TABLE over a directory uses an empty extension filter: no extension / glob decoys there
+        if mode != "api" && decoy == 1 { paths.push(None); continue; }
         let idx = i + 1;
         let mut p = String::from("t");
         for (j, v) in f["pv"].as_array().unwrap().iter().enumerate() {
-            let s = pv_string(v, pool);
+            let s = pv_text(v, pool, is_date(case, j));
             let seg = if raw && raw_ok(&s) { s.clone() } else { hive_encode(&s) };
             p.push_str(&format!("/c{}={}", j + 1, seg));
         }
-        let name = match f["decoy"].as_u64().unwrap() { 1 => format!("f{idx}.txt"), 2 => format!("g{idx}.csv"), _ => format!("f{idx}.csv") };
+        let name = match decoy { 1 => format!("f{idx}.txt"), 2 => format!("g{idx}.csv"), 3 => format!("sub/f{idx}.csv"), _ => format!("f{idx}.csv") };
         p.push('/');
         p.push_str(&name);
         let mut body = String::new();
-        for r in f["rows"].as_array().unwrap() {
-            let d = match spec_val(&r[0], pool) { Value::Null => String::new(), v => v.to_string() };
-            body.push_str(&format!("{},{}\n", d, spec_val(&r[1], pool)));
+        if decoy != 4 {
+            for r in f["rows"].as_array().unwrap() {
+                let d = match spec_val(&r[0], pool) { Value::Null => String::new(), v => v.to_string() };
+                body.push_str(&format!("{},{}\n", d, spec_val(&r[1], pool)));
+            }
         }
         let path = Path::parse(&p).map_err(|e| format!("path {p}: {e}"))?;
         mem.put(&path, PutPayload::from(Bytes::from(body))).await.map_err(|e| e.to_string())?;
         paths.push(Some(p));
     }
-    // an empty file and a directory-like sibling must not disturb anything
+    // a sibling directory sharing the table's name as a string prefix must not disturb anything
     mem.put(&Path::parse("t_other/c1=b/f9.csv").unwrap(), PutPayload::from(Bytes::from("9,9\n"))).await.unwrap();
     let rec = Arc::new(Recorder::new(mem));
     let cfg = SessionConfig::new().with_target_partitions(tp).with_batch_size(8)
-        .set_bool("datafusion.execution.listing_table_ignore_subdirectory", true);
-    let ctx = SessionContext::new_with_config(cfg);
+        .set_bool("datafusion.execution.listing_table_ignore_subdirectory", ignsub);
+    let mut rt = datafusion::execution::runtime_env::RuntimeEnvBuilder::new();
+    match case["cache"].as_str().unwrap_or("on") {
+        "off" => rt = rt.with_object_list_cache_limit(0),
+        "ttl" => rt = rt.with_object_list_cache_ttl(Some(std::time::Duration::from_secs(3600))),
+        _ => {}
+    }
+    let ctx = SessionContext::new_with_config_rt(cfg, rt.build_arc().map_err(|e| e.to_string())?);
     ctx.register_object_store(&url::Url::parse("mem://c27").unwrap(), rec.clone());
-    let mut url = ListingTableUrl::parse("mem://c27/t/").map_err(|e| e.to_string())?;
+    let slash = case["slash"].as_bool().unwrap_or(true);
+    let mut url = ListingTableUrl::parse(if slash { "mem://c27/t/" } else { "mem://c27/t" }).map_err(|e| e.to_string())?;
     if case["glob"].as_bool().unwrap() {
         url = url.with_glob("f*").map_err(|e| e.to_string())?;
     }
     let str_t = if dict { DataType::Dictionary(Box::new(DataType::UInt16), Box::new(DataType::Utf8)) } else { DataType::Utf8 };
-    let part_cols: Vec<(String, DataType)> = (1..=np).map(|j| (format!("c{j}"), if j == 2 { DataType::Int32 } else { str_t.clone() })).collect();
-    let opts = ListingOptions::new(Arc::new(CsvFormat::default().with_has_header(false)))
-        .with_file_extension(".csv")
-        .with_table_partition_cols(part_cols.clone());
-    let schema = Arc::new(Schema::new(vec![Field::new("d", DataType::Int64, true), Field::new("e", DataType::Int64, true)]));
-    let config = ListingTableConfig::new(url.clone()).with_listing_options(opts).with_schema(schema);
-    let table = ListingTable::try_new(config).map_err(|e| format!("table: {e}"))?;
-    ctx.register_table("t", Arc::new(table)).map_err(|e| e.to_string())?;
+    let c2_t = match c2 { "date" => DataType::Date32, "i64" => DataType::Int64, _ => DataType::Int32 };
+    let part_cols: Vec<(String, DataType)> = (1..=np).map(|j| (format!("c{j}"), if j == 2 { c2_t.clone() } else { str_t.clone() })).collect();
+    match mode {
+        "ddl" => {
+            let cols: Vec<String> = (1..=np).map(|j| format!("c{j} {}", if j == 2 { match c2 { "date" => "DATE", "i64" => "BIGINT", _ => "INT" } } else { "VARCHAR" })).collect();
+            let ddl = format!("CREATE EXTERNAL TABLE t (d BIGINT, e BIGINT, {}) STORED AS CSV PARTITIONED BY ({}) LOCATION 'mem://c27/t/' OPTIONS ('format.has_header' 'false')",
+                cols.join(", "), (1..=np).map(|j| format!("c{j}")).collect::<Vec<_>>().join(", "));
+            ctx.sql(&ddl).await.map_err(|e| format!("ddl: {e}"))?.collect().await.map_err(|e| format!("ddl: {e}"))?;
+        }
+        "infer" => {
+            let ddl = "CREATE EXTERNAL TABLE t STORED AS CSV LOCATION 'mem://c27/t/' OPTIONS ('format.has_header' 'false')";
+            ctx.sql(ddl).await.map_err(|e| format!("ddl: {e}"))?.collect().await.map_err(|e| format!("ddl: {e}"))?;
+        }
+        _ => {
+            let opts = ListingOptions::new(Arc::new(CsvFormat::default().with_has_header(false)))
+                .with_file_extension(".csv")
+                .with_table_partition_cols(part_cols.clone());
+            let schema = Arc::new(Schema::new(vec![Field::new("d", DataType::Int64, true), Field::new("e", DataType::Int64, true)]));
+            let config = ListingTableConfig::new(url.clone()).with_listing_options(opts).with_schema(schema);
+            let table = ListingTable::try_new(config).map_err(|e| format!("table: {e}"))?;
+            ctx.register_table("t", Arc::new(table)).map_err(|e| e.to_string())?;
+        }
+    }
     Ok(Built { ctx, rec, url, paths, part_cols })
 }
 
@@ -167,52 +212,80 @@ async fn one_case(acc: &mut Acc, case: &Value) {
         .map(|(i, _)| b.paths[i].clone().unwrap()).collect();
     let idx_path = |v: &Value| -> BTreeSet<String> { v.as_array().unwrap().iter().map(|i| b.paths[i.as_u64().unwrap() as usize - 1].clone().unwrap()).collect() };
     let need = idx_path(&case["need"]);
-    let sql = format!("SELECT {}, d, e FROM t WHERE {}", (1..=np).map(|j| format!("c{j}")).collect::<Vec<_>>().join(", "), case["sql"].as_str().unwrap());
-    let expected = spec_rows(&case["expect"], &pool);
+    let mode = case["mode"].as_str().unwrap_or("api");
+    let date2 = case["c2type"].as_str() == Some("date") && np >= 2;
+    let fix = |rows: Vec<Vec<Value>>| -> Vec<Vec<Value>> {
+        rows.into_iter().map(|mut r| {
+            if date2 { if let Some(n) = r[1].as_i64() { r[1] = json!(date_string(n)); } }
+            if mode == "infer" { for j in 0..np { if let Some(n) = r[j].as_i64() { r[j] = json!(n.to_string()); } } }
+            r
+        }).collect()
+    };
+    let pcols = (1..=np).map(|j| format!("c{j}")).collect::<Vec<_>>().join(", ");
+    let expected = fix(spec_rows(&case["expect"], &pool));
+    let expected_all = fix(spec_rows(&case["all"], &pool));
     let base = json!({"kind":"listing","case":case});
+    let sql_f = format!("SELECT {pcols}, d, e FROM t WHERE {}", case["sql"].as_str().unwrap());
+    let steps: Vec<(&str, String, &Vec<Vec<Value>>, &BTreeSet<String>)> = if mode == "infer" {
+        vec![("all", format!("SELECT {pcols}, column_1, column_2 FROM t"), &expected_all, &covered)]
+    } else {
+        vec![("all", format!("SELECT {pcols}, d, e FROM t"), &expected_all, &covered),
+             ("filter", sql_f.clone(), &expected, &need),
+             ("filter-again", sql_f.clone(), &expected, &need)]
+    };
+    acc.bump(&format!("mode_{mode}"), 1);
+    acc.bump(&format!("cache_{}", case["cache"].as_str().unwrap_or("on")), 1);
+    acc.bump(&format!("c2type_{}", case["c2type"].as_str().unwrap_or("i32")), 1);
+    if !case["slash"].as_bool().unwrap_or(true) { acc.bump("table_path_without_trailing_slash", 1); }
+    if !case["ignsub"].as_bool().unwrap_or(true) { acc.bump("ignore_subdirectory_false", 1); }
+    for f in files { if f["present"] == true { acc.bump(&format!("decoy_{}{}", f["decoy"], if f["covered"] == true {"_covered"} else {""}), 1); } }
 
-    // (1) query through the ListingTable
-    b.rec.take();
-    let res: Result<Vec<arrow::record_batch::RecordBatch>, String> = async {
-        let df = b.ctx.sql(&sql).await.map_err(|e| format!("sql: {e}"))?;
-        df.collect().await.map_err(|e| format!("collect: {e}"))
-    }.await;
-    let reqs = b.rec.take();
-    if std::env::var("VERIF_DEBUG").is_ok() {
-        eprintln!("sql={sql}\nreqs={reqs:?}");
-        if let Ok(df) = b.ctx.sql(&format!("EXPLAIN VERBOSE {sql}")).await {
-            if let Ok(bs) = df.collect().await { eprintln!("{}", arrow::util::pretty::pretty_format_batches(&bs).unwrap()); }
+    // (1) queries through the ListingTable: whole table, filter, filter again (listing served from the cache)
+    for (step, sql, expected, need) in steps {
+        b.rec.take();
+        let res: Result<Vec<arrow::record_batch::RecordBatch>, String> = async {
+            let df = b.ctx.sql(&sql).await.map_err(|e| format!("sql: {e}"))?;
+            df.collect().await.map_err(|e| format!("collect: {e}"))
+        }.await;
+        let reqs = b.rec.take();
+        if std::env::var("VERIF_DEBUG").is_ok() {
+            eprintln!("sql={sql}\nreqs={reqs:?}");
         }
-    }
-    match res {
-        Err(e) => {
-            let mut v = base.clone();
-            v["sql"] = json!(sql); v["error"] = json!(e);
-            v["message"] = json!(format!("query over the listing table failed: {e}"));
-            acc.violation(v);
-        }
-        Ok(batches) => {
-            let got = batches_rows(&batches);
-            let (missing, extra) = bag_diff(&expected, &got);
-            let open = opened(&reqs);
-            let unopened: Vec<&String> = need.iter().filter(|p| !open.contains(*p)).collect();
-            let foreign: Vec<&String> = open.iter().filter(|p| !covered.contains(*p)).collect();
-            if need.len() < covered.len() && !need.is_empty() {
-                acc.nontrivial.insert(format!("{}|{}|{:?}", serde_json::to_string(&case["files"]).unwrap(), sql, case["spelling"]));
-            }
-            if open.len() < covered.len() { acc.bump("queries_with_files_pruned", 1); }
-            if reqs.iter().any(|r| matches!(r, Req::List { prefix, .. } if prefix.contains('='))) { acc.bump("queries_with_prefix_listing", 1); }
-            if acc.samples.len() < 3 && need.len() < covered.len() && !need.is_empty() && open.len() < covered.len() {
-                acc.samples.push(json!({"sql":sql,"files":b.paths,"covered":covered,"need":need,"opened":open,"expected_rows":expected,"got_rows":got,
-                    "list_requests":reqs.iter().filter_map(|r| match r { Req::List{prefix,..} => Some(prefix.clone()), _ => None }).collect::<Vec<_>>()}));
-            }
-            if !missing.is_empty() || !extra.is_empty() || !unopened.is_empty() || !foreign.is_empty() {
+        match res {
+            Err(e) => {
                 let mut v = base.clone();
-                v["sql"] = json!(sql); v["missing_rows"] = json!(missing); v["unexpected_rows"] = json!(extra);
-                v["need_not_opened"] = json!(unopened); v["opened_but_not_covered"] = json!(foreign); v["paths"] = json!(b.paths);
-                v["message"] = json!(format!("listing table result differs from Filter(all rows of covered files): {} missing, {} unexpected rows; {} necessary files not opened; {} files outside the table opened",
-                    missing.len(), extra.len(), unopened.len(), foreign.len()));
+                v["sql"] = json!(sql); v["error"] = json!(e); v["step"] = json!(step);
+                v["message"] = json!(format!("query over the listing table failed: {e}"));
                 acc.violation(v);
+            }
+            Ok(batches) => {
+                let got = batches_rows(&batches);
+                let (missing, extra) = bag_diff(expected, &got);
+                let open = opened(&reqs);
+                let unopened: Vec<&String> = need.iter().filter(|p| !open.contains(*p)).collect();
+                let foreign: Vec<&String> = open.iter().filter(|p| !covered.contains(*p)).collect();
+                let lists = reqs.iter().filter(|r| matches!(r, Req::List { .. })).count();
+                if step == "filter" {
+                    if need.len() < covered.len() && !need.is_empty() {
+                        acc.nontrivial.insert(format!("{}|{}|{:?}|{}|{}", serde_json::to_string(&case["files"]).unwrap(), sql, case["spelling"], mode, case["cache"]));
+                    }
+                    if open.len() < covered.len() { acc.bump("queries_with_files_pruned", 1); }
+                    if lists == 0 { acc.bump("filter_queries_listing_served_from_cache", 1); }
+                    if reqs.iter().any(|r| matches!(r, Req::List { prefix, .. } if prefix.contains('='))) { acc.bump("queries_with_prefix_listing", 1); }
+                    if acc.samples.len() < 3 && need.len() < covered.len() && !need.is_empty() && open.len() < covered.len() {
+                        acc.samples.push(json!({"sql":sql,"mode":mode,"files":b.paths,"covered":covered,"need":need,"opened":open,"expected_rows":expected,"got_rows":got,
+                            "list_requests":reqs.iter().filter_map(|r| match r { Req::List{prefix,..} => Some(prefix.clone()), _ => None }).collect::<Vec<_>>()}));
+                    }
+                }
+                if step == "filter-again" && lists == 0 { acc.bump("repeat_queries_listing_served_from_cache", 1); }
+                if !missing.is_empty() || !extra.is_empty() || !unopened.is_empty() || !foreign.is_empty() {
+                    let mut v = base.clone();
+                    v["sql"] = json!(sql); v["step"] = json!(step); v["missing_rows"] = json!(missing); v["unexpected_rows"] = json!(extra);
+                    v["need_not_opened"] = json!(unopened); v["opened_but_not_covered"] = json!(foreign); v["paths"] = json!(b.paths);
+                    v["message"] = json!(format!("listing table result ({step}) differs from Filter(all rows of covered files): {} missing, {} unexpected rows; {} necessary files not opened; {} files outside the table opened",
+                        missing.len(), extra.len(), unopened.len(), foreign.len()));
+                    acc.violation(v);
+                }
             }
         }
     }
@@ -221,7 +294,7 @@ async fn one_case(acc: &mut Acc, case: &Value) {
     for (i, f) in files.iter().enumerate() {
         let Some(p) = &b.paths[i] else { continue };
         let path = Path::parse(p).unwrap();
-        let want: Vec<String> = f["pv"].as_array().unwrap().iter().map(|v| pv_string(v, &pool)).collect();
+        let want: Vec<String> = f["pv"].as_array().unwrap().iter().enumerate().map(|(j, v)| pv_text(v, &pool, is_date(case, j))).collect();
         let got = parse_partitions_for_path(&b.url, &path, b.part_cols.iter().map(|c| c.0.as_str()));
         let got_s: Option<Vec<String>> = got.map(|g| g.into_iter().map(|c| c.into_owned()).collect());
         acc.bump("paths_parsed", 1);
@@ -238,12 +311,13 @@ async fn one_case(acc: &mut Acc, case: &Value) {
     let store: Arc<dyn ObjectStore> = b.rec.clone();
     let mut filter_sets: Vec<(Vec<Expr>, BTreeSet<String>, bool)> = vec![(vec![], covered.clone(), true)];
     if case["partonly"].as_bool().unwrap() {
-        let e = to_expr(&case["filter"], np, &pool, 0);
+        let c2 = case["c2type"].as_str().unwrap_or("i32");
+        let e = to_expr(&case["filter"], np, &pool, 0, c2);
         filter_sets.push((vec![e], idx_path(&case["needp"]), false));
         // conjunctions reach the listing code split into separate filters
         if case["filter"]["op"] == "bin" && case["filter"]["f"] == "and" {
-            let l = to_expr(&case["filter"]["l"], np, &pool, 0);
-            let r = to_expr(&case["filter"]["r"], np, &pool, 0);
+            let l = to_expr(&case["filter"]["l"], np, &pool, 0, c2);
+            let r = to_expr(&case["filter"]["r"], np, &pool, 0, c2);
             filter_sets.push((vec![l, r], idx_path(&case["needp"]), false));
         }
     }
@@ -270,7 +344,7 @@ async fn one_case(acc: &mut Acc, case: &Value) {
                 for pf in &pfs {
                     let loc = pf.object_meta.location.to_string();
                     if let Some(i) = b.paths.iter().position(|p| p.as_deref() == Some(loc.as_str())) {
-                        let want_v: Vec<String> = files[i]["pv"].as_array().unwrap().iter().map(|v| pv_string(v, &pool)).collect();
+                        let want_v: Vec<String> = files[i]["pv"].as_array().unwrap().iter().enumerate().map(|(j, v)| pv_text(v, &pool, is_date(case, j))).collect();
                         let got_v: Vec<String> = pf.partition_values.iter().map(|s| match s {
                             ScalarValue::Dictionary(_, inner) => inner.to_string(), o => o.to_string() }).collect();
                         if want_v != got_v { bad_values.push(json!({"path":loc,"built_from":want_v,"attached":got_v})); }
